@@ -27,27 +27,33 @@ type arithFn struct {
 	recv string // receiver type name, "" for a plain function
 	name string
 	lean string // name of the generated definition (in namespace Gts.Gen)
+	fuel bool   // the function calls itself: generated with an explicit fuel argument
 }
 
 var arithFns = []arithFn{
-	{"utils.go", "", "Compare", "compare"},
-	{"utils.go", "", "Min", "gmin"},
-	{"utils.go", "", "Max", "gmax"},
-	{"location.go", "", "rangeCompare", "rangeCompare"},
-	{"location.go", "", "rangeWithin", "rangeWithin"},
-	{"location.go", "", "rangeOverlap", "rangeOverlap"},
-	{"seqio/origin.go", "", "toOriginLength", "toOriginLength"},
-	{"seqio/origin.go", "", "fromOriginLength", "fromOriginLength"},
-	{"seqio/date.go", "", "isLeapYear", "isLeapYear"},
-	{"location.go", "Between", "Expand", "betweenExpand"},
-	{"location.go", "Between", "Reverse", "betweenReverse"},
-	{"location.go", "Point", "Expand", "pointExpand"},
-	{"location.go", "Point", "Reverse", "pointReverse"},
-	{"location.go", "Ranged", "Expand", "rangedExpand"},
-	{"location.go", "Ranged", "Shift", "rangedShift"},
-	{"location.go", "Ambiguous", "Expand", "ambiguousExpand"},
-	{"location.go", "Ambiguous", "Shift", "ambiguousShift"},
-	{"location.go", "Ambiguous", "Reverse", "ambiguousReverse"},
+	{"utils.go", "", "Compare", "compare", false},
+	{"utils.go", "", "Min", "gmin", false},
+	{"utils.go", "", "Max", "gmax", false},
+	{"location.go", "", "rangeCompare", "rangeCompare", false},
+	{"location.go", "", "rangeWithin", "rangeWithin", false},
+	{"location.go", "", "rangeOverlap", "rangeOverlap", false},
+	{"seqio/origin.go", "", "toOriginLength", "toOriginLength", false},
+	{"seqio/origin.go", "", "fromOriginLength", "fromOriginLength", false},
+	{"seqio/date.go", "", "isLeapYear", "isLeapYear", false},
+	{"location.go", "Between", "Expand", "betweenExpand", false},
+	{"location.go", "Between", "Reverse", "betweenReverse", false},
+	{"location.go", "Point", "Expand", "pointExpand", false},
+	{"location.go", "Point", "Reverse", "pointReverse", false},
+	{"location.go", "Ranged", "Expand", "rangedExpand", false},
+	{"location.go", "Ranged", "Shift", "rangedShift", false},
+	{"location.go", "Ambiguous", "Expand", "ambiguousExpand", false},
+	{"location.go", "Ambiguous", "Shift", "ambiguousShift", false},
+	{"location.go", "Ambiguous", "Reverse", "ambiguousReverse", false},
+	{"modifier.go", "Head", "Apply", "headApply", true},
+	{"modifier.go", "Tail", "Apply", "tailApply", true},
+	{"modifier.go", "HeadTail", "Apply", "headTailApply", true},
+	{"modifier.go", "HeadHead", "Apply", "headHeadApply", true},
+	{"modifier.go", "TailTail", "Apply", "tailTailApply", true},
 }
 
 // struct layouts the translator knows (checked against the source by checkStructs)
@@ -55,6 +61,10 @@ var structFields = map[string][]string{
 	"Partial":   {"Partial5:bool", "Partial3:bool"},
 	"Ranged":    {"Start:int", "End:int", "Partial:Partial"},
 	"Ambiguous": {"Start:int", "End:int"},
+	// [2]int modifiers: the two elements in order (read through Unpack)
+	"HeadTail": {"E0:int", "E1:int"},
+	"HeadHead": {"E0:int", "E1:int"},
+	"TailTail": {"E0:int", "E1:int"},
 }
 
 var partialConsts = map[string][2]string{
@@ -73,10 +83,12 @@ type env struct {
 	vars    map[string]val
 	results []string // result types of the function being translated
 	fns     map[string]arithFn
+	self    *arithFn // the function being translated (for self calls)
+	recvVar string   // name of its receiver variable
 }
 
 func (e *env) clone() *env {
-	n := &env{vars: map[string]val{}, results: e.results, fns: e.fns}
+	n := &env{vars: map[string]val{}, results: e.results, fns: e.fns, self: e.self, recvVar: e.recvVar}
 	for k, v := range e.vars {
 		n.vars[k] = v
 	}
@@ -457,6 +469,45 @@ func (e *env) assign(lhs ast.Expr, v val, lets *[]string) {
 	}
 }
 
+// multi translates a call that yields two integers: `Unpack(pair)` and a call of the function
+// being translated on its own receiver (which consumes one unit of fuel).
+func (e *env) multi(x ast.Expr, lets *[]string) []val {
+	c, ok := x.(*ast.CallExpr)
+	if !ok {
+		refuse("two-valued right-hand side %T", x)
+	}
+	switch f := c.Fun.(type) {
+	case *ast.Ident:
+		if f.Name == "Unpack" && len(c.Args) == 1 {
+			v := e.expr(c.Args[0])
+			fs, ok := structFields[v.typ]
+			if !ok || len(fs) != 2 || !strings.HasPrefix(fs[0], "E0:") {
+				refuse("Unpack of %s", v.typ)
+			}
+			return []val{v.fields["E0"], v.fields["E1"]}
+		}
+	case *ast.SelectorExpr:
+		id, ok := f.X.(*ast.Ident)
+		if ok && e.self != nil && e.self.fuel && id.Name == e.recvVar && f.Sel.Name == e.self.name && len(e.results) == 2 {
+			var parts []string
+			for _, l := range flat(e.vars[e.recvVar]) {
+				parts = append(parts, l.expr)
+			}
+			for _, a := range c.Args {
+				v := e.expr(a)
+				if v.typ != "int" {
+					refuse("integer argument expected")
+				}
+				parts = append(parts, v.expr)
+			}
+			*lets = append(*lets, fmt.Sprintf("let (r0_, r1_) := %s fuel %s;", e.self.lean, strings.Join(parts, " ")))
+			return []val{{typ: "int", expr: "r0_"}, {typ: "int", expr: "r1_"}}
+		}
+	}
+	refuse("two-valued call")
+	return nil
+}
+
 func asScalar(v val) string {
 	if v.typ == "prop" {
 		return asBool(v)
@@ -514,12 +565,17 @@ func (e *env) blockK(stmts []ast.Stmt, k func(en *env) string) string {
 		var lets []string
 		switch n.Tok {
 		case token.DEFINE, token.ASSIGN:
-			if len(n.Lhs) != len(n.Rhs) {
-				refuse("assignment arity")
-			}
-			vals := make([]val, len(n.Rhs))
-			for i, r := range n.Rhs {
-				vals[i] = e.expr(r)
+			var vals []val
+			if len(n.Lhs) == 2 && len(n.Rhs) == 1 {
+				vals = e.multi(n.Rhs[0], &lets)
+			} else {
+				if len(n.Lhs) != len(n.Rhs) {
+					refuse("assignment arity")
+				}
+				vals = make([]val, len(n.Rhs))
+				for i, r := range n.Rhs {
+					vals[i] = e.expr(r)
+				}
 			}
 			if len(n.Lhs) > 1 {
 				// parallel assignment: evaluate the scalars through temporaries
@@ -732,12 +788,14 @@ func genArith(repo string) (text string, err error) {
 			}
 			return true
 		})
-		e := &env{vars: map[string]val{}, fns: fns}
+		spec := spec
+		e := &env{vars: map[string]val{}, fns: fns, self: &spec}
 		var params []string
 		if spec.recv != "" {
 			rn := decl.Recv.List[0].Names[0].Name
+			e.recvVar = rn
 			switch spec.recv {
-			case "Between", "Point":
+			case "Between", "Point", "Head", "Tail":
 				e.vars[rn] = val{typ: "int", expr: rn}
 				params = append(params, fmt.Sprintf("(%s : Int)", rn))
 			default:
@@ -777,6 +835,27 @@ func genArith(repo string) (text string, err error) {
 			}()
 			return e.block(decl.Body.List)
 		}()
+		if spec.fuel {
+			// self-recursive: explicit fuel, first argument; out of fuel yields zeros (the bridge
+			// theorem fixes the fuel and proves the result for every input)
+			var names, types, zeros []string
+			for _, p := range params {
+				q := strings.SplitN(strings.Trim(p, "()"), " : ", 2)
+				names = append(names, q[0])
+				types = append(types, q[1])
+			}
+			for _, t := range rts {
+				zeros = append(zeros, map[string]string{"Int": "0", "Bool": "false"}[t])
+			}
+			us := make([]string, len(names))
+			for i := range us {
+				us[i] = "_"
+			}
+			fmt.Fprintf(&b, "/-- %s: `%s.%s` (calls itself: fuel) -/\ndef %s : Nat → %s → %s\n  | 0, %s => (%s)\n  | fuel + 1, %s =>\n  %s\n\n",
+				spec.file, spec.recv, spec.name, spec.lean, strings.Join(types, " → "), strings.Join(rts, " × "),
+				strings.Join(us, ", "), strings.Join(zeros, ", "), strings.Join(names, ", "), body)
+			continue
+		}
 		fmt.Fprintf(&b, "/-- %s: `%s%s` -/\ndef %s %s : %s :=\n  %s\n\n", spec.file,
 			map[bool]string{true: spec.recv + ".", false: ""}[spec.recv != ""], spec.name,
 			spec.lean, strings.Join(params, " "), strings.Join(rts, " × "), body)
